@@ -573,7 +573,12 @@ pub struct Cfg {
 impl Cfg {
     pub fn new(value: Option<&str>) -> Self {
         Self {
-            value: value.map(|v| v.into()),
+            // Cfgs are compared as strings. Normalize the spelling so the same predicate compares equal
+            // regardless of how the input format spaced its tokens
+            value: value.map(|v| match v.parse::<proc_macro2::TokenStream>() {
+                Ok(tokens) => tokens.to_string(),
+                Err(_) => v.into(),
+            }),
         }
     }
 
